@@ -719,8 +719,6 @@ def run_sequences(ctx, svc, seqs, alphabet):
                     continue        # the connection is closed while the client is still sending: no response exists
                 if cls == 'oversized' and resp[0] in (400, 413):
                     continue
-                if cls == 'extractor' and resp[0] in (400, 413) and ctx.known('evaluate-oversized-plaintext', case):
-                    continue
             if got[0] == 'malformed' or got[0] == 'transport':
                 ctx.violation('request %s: the answer is not a well-formed JSON result document: %s' % (name, got[1]), case, impl=str(resp)[:400], model=str(rep))
                 continue
@@ -787,8 +785,6 @@ def check_render_case(ctx, v_real, impl_cps, model_cps, decoded, case, where):
     if law_ok != coq_ok:
         ctx.corr_broken('strict parser of the driver disagrees with coq json_decode', case, text[:200], str(decoded)[:200])
     if not (law_ok and coq_ok):
-        if is_number_print_defect(v_real, text) and ctx.known('number-text-c07', case):
-            return False
         ctx.violation('%s: the rendered text %r %s' % (where, text[:160], ('is not well-formed JSON: ' + why) if why else 'does not decode to the evaluated value'),
                       case, impl=text[:600], model=''.join(chr(c) for c in model_cps)[:600])
         return False
